@@ -320,3 +320,218 @@ Proof.
   - apply beqb_eq in E. subst d. rewrite child_neq. simpl. now rewrite orb_true_r.
   - simpl. destruct rec; simpl; [now rewrite andb_true_r | now rewrite andb_false_r].
 Qed.
+
+(* ================================================================== 3. kernel, reader, emitter on one event *)
+Definition kset (k : kst) (q : list kraw) (c : N) : kst :=
+  {| k_watches := k_watches k; k_next_wd := k_next_wd k; k_queue := q; k_next_cookie := c |}.
+
+Lemma kset_self k : k = kset k (k_queue k) (k_next_cookie k).
+Proof. destruct k; reflexivity. Qed.
+
+Definition kev (w : kwatch) (bit : N) (isdir : bool) (cookie : N) (name : bytes) : kraw :=
+  {| k_wd := kw_wd w; k_mask := if isdir then N.lor bit IN_ISDIR else bit; k_cookie := cookie; k_name := name |}.
+
+Lemma knotify_hit k q c ino bit isdir ck name w :
+  watch_of_ino k ino = Some w -> kw_mask w = WATCHDOG_ALL -> N.eqb (N.land bit WATCHDOG_ALL) 0 = false ->
+  knotify (kset k q c) ino bit isdir ck name = kset k (kpush q (kev w bit isdir ck name)) c.
+Proof.
+  intros Hw Hm Hb. unfold knotify.
+  change (watch_of_ino (kset k q c) ino) with (watch_of_ino k ino). rewrite Hw, Hm, Hb. reflexivity.
+Qed.
+
+Lemma knotify_miss k q c ino bit isdir ck name :
+  watch_of_ino k ino = None -> knotify (kset k q c) ino bit isdir ck name = kset k q c.
+Proof.
+  intros Hw. unfold knotify.
+  change (watch_of_ino (kset k q c) ino) with (watch_of_ino k ino). now rewrite Hw.
+Qed.
+
+Lemma kpush_nil e : kpush [] e = [e].
+Proof. reflexivity. Qed.
+
+Lemma kpush_snoc q l e : kraw_eqb l e = false -> kpush (q ++ [l]) e = q ++ [l; e].
+Proof. intros H. unfold kpush. rewrite rev_app_distr. simpl. rewrite H. now rewrite <- app_assoc. Qed.
+
+Lemma kpush_one l e : kraw_eqb l e = false -> kpush [l] e = [l; e].
+Proof. apply (kpush_snoc []). Qed.
+
+Lemma kpush_two a l e : kraw_eqb l e = false -> kpush [a; l] e = [a; l; e].
+Proof. apply (kpush_snoc [a]). Qed.
+
+Lemma kraw_neq_mask a b : N.eqb (k_mask a) (k_mask b) = false -> kraw_eqb a b = false.
+Proof. intros H. unfold kraw_eqb. rewrite H. now rewrite andb_false_r. Qed.
+
+Definition rpath (wdp name : bytes) : bytes := match name with [] => wdp | _ => join wdp name end.
+Definition mkraw (e : kraw) (p : bytes) : raw :=
+  {| r_wd := k_wd e; r_mask := k_mask e; r_cookie := k_cookie e; r_name := k_name e; r_path := p |}.
+
+Lemma rpath_child d n :
+  d <> [] -> last_is_sep d = false -> valid_name n = true -> rpath d n = d ++ sep :: n.
+Proof.
+  intros Hd Hs Hn. unfold rpath. rewrite <- (join_name d n Hd Hs Hn).
+  destruct n; [discriminate | reflexivity].
+Qed.
+
+Section ReadOne.
+  Variable C : cfg.
+
+  Lemma read_one_plain t r k acc e wdp :
+    alookup N.eqb (k_wd e) (pfw r) = Some wdp ->
+    is_moved_from (k_mask e) = false -> is_moved_to (k_mask e) = false ->
+    Emitter.is_ignored (k_mask e) = false ->
+    is_directory (k_mask e) && is_create (k_mask e) = false ->
+    read_one C t (r, k, acc) e = Done (r, k, acc ++ [mkraw e (rpath wdp (k_name e))]).
+  Proof.
+    intros H1 H2 H3 H4 H5. unfold read_one. rewrite H1, H2, H3, H4. cbn [r_path].
+    rewrite <- andb_assoc, H5, andb_false_r. reflexivity.
+  Qed.
+End ReadOne.
+
+(* ================================================================== 4. completeness, one operation at a time *)
+Definition delivers (C : cfg) (full : bool) (w : world) (k : kst) (r : rstate) (o : op) : Prop :=
+  exists evs, deliver_one C full w k r o = Some evs /\
+              collapse evs = collapse (contract (c_recursive C) full (c_root C) (w_fs w) o).
+
+Ltac mask_facts := try reflexivity; try (rewrite ?andb_false_r; reflexivity).
+
+Section Complete.
+  Variable C : cfg.
+  Variable full : bool.
+  Variables (w : world) (k : kst) (r : rstate).
+  Hypothesis Hq : k_queue k = [].
+
+  Let rec := c_recursive C.
+  Let root := c_root C.
+
+  Ltac start_op Happ Hd Hs Hn :=
+    unfold delivers, deliver_one; rewrite Happ;
+    unfold contract; rewrite ?in_scope_child by assumption;
+    cbn [kernel_op]; rewrite ?dirname_child, ?basename_child by assumption;
+    rewrite (kset_self k), Hq.
+  Ltac finish_path d n :=
+    cbn [k_name kev app]; rewrite ?rpath_child by assumption; generalize (d ++ sep :: n); intros p;
+    eexists; split; reflexivity.
+
+  Lemma contract_touch d n w' :
+    d <> [] -> last_is_sep d = false -> valid_name n = true ->
+    cover C r k (w_fs w) d ->
+    apply_op w (Touch (d ++ sep :: n)) = Some w' ->
+    delivers C full w k r (Touch (d ++ sep :: n)).
+  Proof.
+    intros Hd Hs Hn Hcov Happ. start_op Happ Hd Hs Hn. unfold cover in Hcov.
+    destruct (watched_dir (c_recursive C) (c_root C) d).
+    - destruct Hcov as [wt [Hw [Hm [Hp Hf]]]].
+      rewrite !(knotify_hit _ _ _ _ _ _ _ _ wt Hw Hm) by reflexivity.
+      rewrite kpush_nil, kpush_one, kpush_two by (apply kraw_neq_mask; reflexivity).
+      cbn [k_queue kset read_batch].
+      rewrite !(read_one_plain C _ _ _ _ _ d) by (first [exact Hp | reflexivity]).
+      finish_path d n.
+    - rewrite !knotify_miss by exact Hcov. eexists; split; reflexivity.
+  Qed.
+
+  Lemma contract_write d n w' :
+    d <> [] -> last_is_sep d = false -> valid_name n = true ->
+    cover C r k (w_fs w) d ->
+    apply_op w (Write (d ++ sep :: n)) = Some w' ->
+    delivers C full w k r (Write (d ++ sep :: n)).
+  Proof.
+    intros Hd Hs Hn Hcov Happ. start_op Happ Hd Hs Hn. unfold cover in Hcov.
+    destruct (watched_dir (c_recursive C) (c_root C) d).
+    - destruct Hcov as [wt [Hw [Hm [Hp Hf]]]].
+      rewrite !(knotify_hit _ _ _ _ _ _ _ _ wt Hw Hm) by reflexivity.
+      rewrite kpush_nil, kpush_one, kpush_two by (apply kraw_neq_mask; reflexivity).
+      cbn [k_queue kset read_batch].
+      rewrite !(read_one_plain C _ _ _ _ _ d) by (first [exact Hp | reflexivity]).
+      finish_path d n.
+    - rewrite !knotify_miss by exact Hcov. eexists; split; reflexivity.
+  Qed.
+
+  Lemma contract_unlink d n w' :
+    d <> [] -> last_is_sep d = false -> valid_name n = true ->
+    cover C r k (w_fs w) d ->
+    apply_op w (Unlink (d ++ sep :: n)) = Some w' ->
+    delivers C full w k r (Unlink (d ++ sep :: n)).
+  Proof.
+    intros Hd Hs Hn Hcov Happ. start_op Happ Hd Hs Hn. unfold cover in Hcov.
+    destruct (watched_dir (c_recursive C) (c_root C) d).
+    - destruct Hcov as [wt [Hw [Hm [Hp Hf]]]].
+      rewrite !(knotify_hit _ _ _ _ _ _ _ _ wt Hw Hm) by reflexivity.
+      rewrite kpush_nil.
+      cbn [k_queue kset read_batch].
+      rewrite !(read_one_plain C _ _ _ _ _ d) by (first [exact Hp | reflexivity]).
+      finish_path d n.
+    - rewrite !knotify_miss by exact Hcov. eexists; split; reflexivity.
+  Qed.
+
+  (* chmod of a file *)
+  Lemma contract_chmod_file d n w' :
+    d <> [] -> last_is_sep d = false -> valid_name n = true ->
+    cover C r k (w_fs w) d ->
+    fisdir (d ++ sep :: n) (w_fs w) = false ->
+    apply_op w (Chmod (d ++ sep :: n)) = Some w' ->
+    delivers C full w k r (Chmod (d ++ sep :: n)).
+  Proof.
+    intros Hd Hs Hn Hcov Hfile Happ. start_op Happ Hd Hs Hn. unfold cover in Hcov. rewrite Hfile.
+    destruct (watched_dir (c_recursive C) (c_root C) d).
+    - destruct Hcov as [wt [Hw [Hm [Hp Hf]]]].
+      rewrite !(knotify_hit _ _ _ _ _ _ _ _ wt Hw Hm) by reflexivity.
+      rewrite kpush_nil.
+      cbn [k_queue kset read_batch].
+      rewrite !(read_one_plain C _ _ _ _ _ d) by (first [exact Hp | reflexivity]).
+      finish_path d n.
+    - rewrite !knotify_miss by exact Hcov. eexists; split; reflexivity.
+  Qed.
+
+  Lemma nevent_eqb_refl a : nevent_eqb a a = true.
+  Proof.
+    unfold nevent_eqb. rewrite !beqb_refl. destruct (ev_cls a), (ev_synth a); reflexivity.
+  Qed.
+
+  Lemma collapse_dup a l : collapse (a :: a :: l) = collapse (a :: l).
+  Proof. cbn [collapse]. now rewrite nevent_eqb_refl. Qed.
+
+  Lemma watched_child d n :
+    valid_name n = true -> beqb (d ++ sep :: n) root = false ->
+    watched_dir rec root (d ++ sep :: n) = true -> watched_dir rec root d = true.
+  Proof.
+    intros Hn Hr. unfold watched_dir. rewrite Hr. simpl. intros H. apply andb_true_iff in H as [-> H].
+    rewrite under_child in H by exact Hn. simpl. exact H.
+  Qed.
+
+  Lemma kraw_neq_name a b : beqb (k_name a) (k_name b) = false -> kraw_eqb a b = false.
+  Proof. intros H. unfold kraw_eqb. rewrite H. now rewrite andb_false_r. Qed.
+
+  (* chmod of a directory: reported through the parent's watch and through its own watch *)
+  Lemma contract_chmod_dir d n w' :
+    d <> [] -> last_is_sep d = false -> valid_name n = true ->
+    cover C r k (w_fs w) d -> cover C r k (w_fs w) (d ++ sep :: n) ->
+    d ++ sep :: n <> root ->
+    fisdir (d ++ sep :: n) (w_fs w) = true ->
+    apply_op w (Chmod (d ++ sep :: n)) = Some w' ->
+    delivers C full w k r (Chmod (d ++ sep :: n)).
+  Proof.
+    intros Hd Hs Hn Hcov Hcovp Hnr Hdir Happ. start_op Happ Hd Hs Hn. unfold cover in Hcov, Hcovp.
+    rewrite Hdir. apply beqb_neq in Hnr.
+    assert (Hwc := watched_child d n Hn Hnr). fold rec root in Hcov, Hcovp |- *.
+    destruct (watched_dir rec root d).
+    - destruct Hcov as [wt [Hw [Hm [Hp Hf]]]].
+      rewrite !(knotify_hit _ _ _ _ _ _ _ _ wt Hw Hm) by reflexivity. rewrite kpush_nil.
+      destruct (watched_dir rec root (d ++ sep :: n)).
+      + destruct Hcovp as [wp [Hw' [Hm' [Hp' Hf']]]].
+        rewrite !(knotify_hit _ _ _ _ _ _ _ _ wp Hw' Hm') by reflexivity.
+        rewrite kpush_one by (apply kraw_neq_name; cbn; destruct n; [discriminate | reflexivity]).
+        cbn [k_queue kset read_batch].
+        rewrite (read_one_plain C _ _ _ _ _ d) by (first [exact Hp | reflexivity]).
+        rewrite (read_one_plain C _ _ _ _ _ (d ++ sep :: n)) by (first [exact Hp' | reflexivity]).
+        cbn [k_name kev app rpath]. rewrite ?rpath_child by assumption. generalize (d ++ sep :: n). intros p.
+        eexists. split; [reflexivity|].
+        match goal with |- collapse ?l = _ => let l' := eval cbv in l in change l with l' end.
+        apply collapse_dup.
+      + rewrite !knotify_miss by exact Hcovp.
+        cbn [k_queue kset read_batch].
+        rewrite (read_one_plain C _ _ _ _ _ d) by (first [exact Hp | reflexivity]).
+        finish_path d n.
+    - rewrite !knotify_miss by exact Hcov.
+      destruct (watched_dir rec root (d ++ sep :: n)); [specialize (Hwc eq_refl); discriminate|].
+      rewrite !knotify_miss by exact Hcovp. eexists; split; reflexivity.
+  Qed.
